@@ -66,6 +66,11 @@ type SimClient struct {
 	lastSent  *Sent
 	readyAt   time.Duration
 	nextID    int
+	Transport int
+	inLP      chan []byte
+	lpSid     string
+	lpCancel  context.CancelFunc
+	RawFrames []string
 	// Protocol state as the client understands it
 	HiDone, LoggedIn bool
 	Sid              string
@@ -98,7 +103,13 @@ func (s *grpcStream) Send(m *pbx.ServerMsg) error {
 			return io.ErrClosedPipe
 		}
 	}
-	c.deliver(pbServDeserialize(m))
+	msg := pbServDeserialize(m)
+	if d := m.GetData(); d != nil && msg.Data != nil && d.GetTimestamp() > 0 {
+		// pbServDeserialize's int64ToTime reads the millisecond remainder as nanoseconds (a codec helper used
+		// only on this simulated client side); take the timestamp from the wire value instead.
+		msg.Data.Timestamp = time.UnixMilli(d.GetTimestamp()).UTC()
+	}
+	c.deliver(msg)
 	return nil
 }
 
@@ -220,18 +231,18 @@ func (c *SimClient) observe(m *ServerComMessage) {
 // ---------------------------------------------------------------------------------------------
 
 type simWorld struct {
-	rt      *simrt.World
-	Disk    *simdb.Disk
-	Inc     int // server incarnation (bumped by every restart)
-	ev      int
-	Users   []*simUser
-	Clients []*SimClient
-	Groups  []string // names of group topics known to the workload (seeded or created)
-	created map[*Sent]string
-	Timeout time.Duration // client-side reply timeout (simulated)
-	Crashes int
-	OnFire  func(c *SimClient, s *Sent)
-	Unanswered []*Sent
+	rt           *simrt.World
+	Disk         *simdb.Disk
+	Inc          int // server incarnation (bumped by every restart)
+	ev           int
+	Users        []*simUser
+	Clients      []*SimClient
+	Groups       []string // names of group topics known to the workload (seeded or created)
+	created      map[*Sent]string
+	Timeout      time.Duration // client-side reply timeout (simulated)
+	Crashes      int
+	OnFire       func(c *SimClient, s *Sent)
+	Unanswered   []*Sent
 	iso          *isoProbe
 	IsoCloneDisk bool
 	OnIsoFire    func(p *isoProbe)
@@ -280,6 +291,10 @@ func (c *SimClient) connect() {
 	c.Attached = map[string]bool{}
 	c.in = make(chan *pbx.ClientMsg, 1024)
 	c.stall = nil
+	if c.Transport == TransportLP {
+		c.connectLP()
+		return
+	}
 	ctx := peer.NewContext(context.Background(), &peer.Peer{Addr: &net.TCPAddr{IP: net.IPv4(10, 0, 0, byte(1+c.Idx)), Port: 1000 + c.Conn}})
 	st := &grpcStream{c: c, conn: c.Conn, ctx: ctx}
 	srv := &grpcNodeServer{}
@@ -293,6 +308,15 @@ func (c *SimClient) disconnect() {
 	}
 	c.Connected = false
 	close(c.in)
+	if c.Transport == TransportLP {
+		if c.lpCancel != nil {
+			c.lpCancel()
+		}
+		if c.inLP != nil {
+			close(c.inLP)
+			c.inLP = nil
+		}
+	}
 	if c.stall != nil {
 		close(c.stall)
 		c.stall = nil
@@ -318,6 +342,18 @@ func (c *SimClient) send(op *Op, msg *ClientComMessage) *Sent {
 	w.rt.Logf("send c%d %s", c.Idx, canon(msg))
 	if !c.Connected {
 		s.TimedOut = true
+		return s
+	}
+	if c.Transport == TransportLP {
+		raw := op.Raw
+		if raw == nil {
+			raw, _ = json.Marshal(msg)
+		}
+		select {
+		case c.inLP <- raw:
+		default:
+			panic("simclient: inbound queue full")
+		}
 		return s
 	}
 	select {
